@@ -65,7 +65,7 @@ func init() {
 		Technique:      "runtime monitor: classification oracle from the declared key set of the level (exact / unique prefix / ambiguous) over real Parse executions of EVERY prefix of EVERY key, metamorphic equality with the full-name spelling, state-unchanged check on ambiguity",
 		Rule: "case = adversarial name set (names and aliases over a 2-3 letter alphabet so that they prefix each other, single letters, multibyte) at the root and inside a command (inherited + own keys in one table); every key x every prefix is executed in long spelling, and in the mode's single-dash spelling where that spelling denotes one option name; " +
 			"distinct = (mode, level, sorted key set); non-trivial = the key set yields at least one ambiguous prefix and one proper unique prefix",
-		Cases: func(tier string) int { return tierN(tier, 600, 150000) },
+		Cases: func(tier string) int { return tierN(tier, 1000, 150000) },
 		Run: func(seed uint64, idx int, tier string) *fw.Result {
 			r := CaseRng(seed, "C05", idx)
 			mode := idx % 3
